@@ -26,6 +26,8 @@ import (
 type refVerdict struct {
 	Authorised bool
 	Why        string
+	// Stage names the clause that fails: txid | initiator | listed_signer | owner.
+	Stage string
 	// Signers: addresses with a strictly valid signature over the digest.
 	Signers map[string]bool
 	// AllEntriesValid: every per-signer signature entry the transaction carries is
@@ -97,22 +99,107 @@ func entryAddr(si *protos.SignatureInfo, digest []byte) (addr string, valid bool
 	return addr, true, canonical
 }
 
-// quorum evaluates the account's threshold rule over a set of member addresses.
-func quorum(f *fixture, account string, members map[string]bool) bool {
+// acctShaped: the name has the shape of an account ("XC" + 16 digits, then
+// nothing or "@chain"): such an owner has no key of its own, only its
+// access-control rule can entitle somebody to act for it.
+func acctShaped(s string) bool {
+	if len(s) < 18 || !strings.HasPrefix(s, "XC") {
+		return false
+	}
+	for _, c := range s[2:18] {
+		if c < '0' || c > '9' {
+			return false
+		}
+	}
+	return len(s) == 18 || s[18] == '@'
+}
+
+// ruleMet evaluates the stored access-control rule of account over the set of
+// its members that acted (keys that signed, member accounts whose own rule is
+// met). The rule is read from the ledger through the ACL manager and evaluated
+// here. An account that has no rule, or a rule that cannot be evaluated, entitles
+// nobody.
+func ruleMet(f *fixture, account string, acted map[string]bool) bool {
 	acl, err := f.w.Acl().GetAccountACL(account)
 	if err != nil || acl == nil || acl.Pm == nil {
 		return false
 	}
-	if acl.Pm.Rule != protos.PermissionRule_SIGN_THRESHOLD {
-		return false // the fixture only creates threshold accounts
-	}
-	sum := 0.0
-	for ak, w := range acl.AksWeight {
-		if members[ak] {
-			sum += w
+	switch acl.Pm.Rule {
+	case protos.PermissionRule_SIGN_THRESHOLD:
+		sum := 0.0
+		for ak, w := range acl.AksWeight {
+			if acted[ak] {
+				sum += w
+			}
+		}
+		return sum >= acl.Pm.AcceptValue
+	case protos.PermissionRule_SIGN_AKSET:
+		for _, set := range acl.GetAkSets().GetSets() {
+			if set == nil || len(set.Aks) == 0 {
+				continue
+			}
+			all := true
+			for _, ak := range set.Aks {
+				if !acted[ak] {
+					all = false
+				}
+			}
+			if all {
+				return true
+			}
 		}
 	}
-	return sum >= acl.Pm.AcceptValue
+	return false
+}
+
+// quorum: the rule of account over directly acting member keys.
+func quorum(f *fixture, account string, members map[string]bool) bool {
+	return ruleMet(f, account, members)
+}
+
+// authNode is one name on the authorisation paths "account/.../key" a
+// transaction lists.
+type authNode struct {
+	signed   bool // the name ends a path and has a valid signature
+	children map[string]*authNode
+}
+
+// ownerRuleMet: is the rule of the owner account met by the listed paths that
+// start at it? A key acts when it ends a path and signed; an account in the
+// middle of a path acts when its own rule is met by what is listed beneath it.
+func ownerRuleMet(f *fixture, owner string, authRequire []string, signers map[string]bool) bool {
+	root := &authNode{children: map[string]*authNode{}}
+	for _, ar := range authRequire {
+		p := strings.Split(ar, "/")
+		if len(p) < 2 || p[0] != owner || len(p) > 8 {
+			continue
+		}
+		cur := root
+		for i := 1; i < len(p); i++ {
+			n := cur.children[p[i]]
+			if n == nil {
+				n = &authNode{children: map[string]*authNode{}}
+				cur.children[p[i]] = n
+			}
+			if i == len(p)-1 && signers[p[i]] {
+				n.signed = true
+			}
+			cur = n
+		}
+	}
+	var met func(name string, n *authNode, depth int) bool
+	met = func(name string, n *authNode, depth int) bool {
+		acted := map[string]bool{}
+		for cn, c := range n.children {
+			if c.signed && !acctShaped(cn) {
+				acted[cn] = true
+			} else if acctShaped(cn) && len(c.children) > 0 && depth < 8 && met(cn, c, depth+1) {
+				acted[cn] = true
+			}
+		}
+		return ruleMet(f, name, acted)
+	}
+	return met(owner, root, 0)
 }
 
 func reference(f *fixture, tx *pb.Transaction) (v refVerdict) {
@@ -128,7 +215,7 @@ func reference(f *fixture, tx *pb.Transaction) (v refVerdict) {
 	}
 	id, err := txhash.MakeTransactionID(tx)
 	if err != nil || !bytes.Equal(id, tx.Txid) {
-		v.Why = "txid is not the hash of the content"
+		v.Why, v.Stage = "txid is not the hash of the content", "txid"
 		return
 	}
 	digest, err := txhash.MakeTxDigestHash(tx)
@@ -141,7 +228,7 @@ func reference(f *fixture, tx *pb.Transaction) (v refVerdict) {
 	for _, ar := range tx.AuthRequire {
 		listed = append(listed, lastSeg(ar))
 	}
-	initiatorIsAccount := isAccountName(tx.Initiator)
+	initiatorIsAccount := acctShaped(tx.Initiator)
 	if tx.XuperSign != nil {
 		// aggregated form: one multi-signature by exactly the initiator and the
 		// listed signers, each named with the public key of its address
@@ -186,7 +273,7 @@ func reference(f *fixture, tx *pb.Transaction) (v refVerdict) {
 			}
 		}
 		if len(v.Signers) != len(need) {
-			v.Why = "aggregated signature is not a valid multi-signature of the initiator and every listed signer"
+			v.Why, v.Stage = "aggregated signature is not a valid multi-signature of the initiator and every listed signer", "listed_signer"
 			return
 		}
 		v.AllEntriesValid = true
@@ -224,16 +311,16 @@ func reference(f *fixture, tx *pb.Transaction) (v refVerdict) {
 		}
 		if initiatorIsAccount {
 			if !quorum(f, tx.Initiator, iniSigners) {
-				v.Why = "initiator account's rule not met by the initiator signatures"
+				v.Why, v.Stage = "initiator account's access-control rule is not met by the initiator signatures (or it has none)", "initiator"
 				return
 			}
 		} else if !v.Signers[tx.Initiator] {
-			v.Why = "no valid signature of the initiator"
+			v.Why, v.Stage = "no valid signature of the initiator", "initiator"
 			return
 		}
 		for _, a := range listed {
 			if !v.Signers[a] {
-				v.Why = "listed signer " + a + " has no valid signature"
+				v.Why, v.Stage = "listed signer "+a+" has no valid signature", "listed_signer"
 				return
 			}
 		}
@@ -252,20 +339,13 @@ func reference(f *fixture, tx *pb.Transaction) (v refVerdict) {
 			continue // spent by the carried contract code; reproduced by re-execution
 		}
 		owner := string(in.FromAddr)
-		if isAccountName(owner) {
-			members := map[string]bool{}
-			for _, ar := range tx.AuthRequire {
-				p := strings.Split(ar, "/")
-				if len(p) == 2 && p[0] == owner && v.Signers[p[1]] {
-					members[p[1]] = true
-				}
-			}
+		if acctShaped(owner) {
 			if owner == tx.Initiator {
 				// the initiator account already proved its rule with its own signatures
 				continue
 			}
-			if !quorum(f, owner, members) {
-				v.Why = "owner account " + owner + ": rule not met by the listed signers"
+			if !ownerRuleMet(f, owner, tx.AuthRequire, v.Signers) {
+				v.Why, v.Stage = "owner account "+owner+": its access-control rule is not met by the listed signers (or it has none)", "owner"
 				return
 			}
 			continue
@@ -277,7 +357,7 @@ func reference(f *fixture, tx *pb.Transaction) (v refVerdict) {
 			}
 		}
 		if !named || !v.Signers[owner] {
-			v.Why = "owner " + owner + " of a spent output is not among the signers"
+			v.Why, v.Stage = "owner "+owner+" of a spent output is not among the signers", "owner"
 			return
 		}
 	}
